@@ -41,6 +41,9 @@ func run(c *vrt.Ctx) {
 	if want("lapack") {
 		runLapack(c)
 	}
+	if want("lapack64") {
+		runLapack64(c)
+	}
 	if want("mat") {
 		runMat(c)
 		runMatReuse(c)
@@ -75,6 +78,7 @@ func runBlas(c *vrt.Ctx) {
 	c.Count("blas.points", st.points.Load())
 	c.Count("blas.points_nonexistent(need-1<0)", st.skipped.Load())
 	c.Count("blas.valid_calls", st.valid.Load())
+	c.Count("blas.valid_calls_through_blas64_blas32_cblas128_cblas64", st.viaWrapper.Load())
 	c.Count("blas.invalid_calls", st.invalid.Load())
 	c.Count("blas.invalid_calls_multi_clause", st.multi.Load())
 	c.Count("blas.single_vector_neg_inc_neg_n(either_outcome_accepted)", st.negSingle.Load())
